@@ -37,7 +37,7 @@ def run(ctx, report):
         'pop() yields the last) identifies which local holds the LEFT (earlier) and RIGHT (later) operand; every branch `op == S` must '
         'apply the Python operator that S names, and for non-commutative S as LEFT.arg OP RIGHT.arg. D2: every operator for which the '
         '"trailing literal 0 is dropped" rule can fire has 0 as a right-neutral element and, when a single operand remains, is unwrapped to '
-        'that operand (operator-set inclusion between the two guards, located by meaning). D3: in merge_sliceto_slice the bit-position arithmetic is checked as linear forms: constant pieces are masked to stop - start bits, pieces merge only when adjacent (low.stop == start), the accumulated high constant is shifted by exactly the width of the lower piece (under the loop invariant start == out.start and the adjacency equality), slices of one source merge only when their source bits are contiguous.')
+        'that operand (operator-set inclusion between the two guards, located by meaning). D3: in merge_sliceto_slice the bit-position arithmetic is checked as linear forms: constant pieces are masked to stop - start bits, pieces merge only when adjacent (low.stop == start), the accumulated high constant is shifted by exactly the width of the lower piece (under the loop invariant start == out.start and the adjacency equality), slices of one source merge only when their source bits are contiguous. D4: the side condition of each recognised rewrite ((A & m) >> s -> 0 needs m < 2**s strictly; rotation by the operand size; (A|c)==0; int==int; conditional on a constant; identity slice) and the re-basing arithmetic of slice-of-slice / slice-of-concatenation / slice-of-constant / slice-of-memory, as linear forms.')
     report.not_decided = ('soundness of the side condition of each rewrite for all constants and widths (e.g. 2**shift >= mask), termination of the fixpoint loop `while e_new != e` -- these quantify over values.')
 
     R1 = report.rule('C05.D1', 'constant folding applies the named operator with operands in expression order', floor=7)
@@ -232,8 +232,130 @@ def run(ctx, report):
             else:
                 R3.violation(inst + ':invariant', 'merge:constants:invariant', 'the merged constant piece does not record its new start (out[1] = start)', where(hlp, loop))
 
+    # ---------------------------------------------------------------- D4 side conditions and bit arithmetic of the rewrites
+    R4 = report.rule('C05.D4', 'rewrite rules fire only under their algebraic side condition and re-base slices exactly', floor=9)
+    from ..linarith import lin as _lin, show as _show
+
+    def ifs_where(pred):
+        return [n for n in walk_no_nested(fn) if isinstance(n, ast.If) and pred(u(n.test))]
+    # (A & mask) >> shift == 0  iff  mask < 2**shift
+    hits = ifs_where(lambda t: "op == '>>'" in t and "args[0].op == '&'" in t)
+    if not hits:
+        R4.ok('mask-shift:absent', nontrivial=False)
+    for n in hits:
+        inner = [x for x in ast.walk(n) if isinstance(x, ast.Compare) and any(isinstance(y, ast.BinOp) and isinstance(y.op, ast.Pow) for y in ast.walk(x))]
+        if not inner:
+            raise AnalysisError('mask/shift rewrite: side condition not found')
+        c = inner[0]
+        pow_left = any(isinstance(y, ast.BinOp) and isinstance(y.op, ast.Pow) for y in ast.walk(c.left))
+        strict = (pow_left and isinstance(c.ops[0], ast.Gt)) or (not pow_left and isinstance(c.ops[0], ast.Lt))
+        if strict:
+            R4.ok('mask-shift', sample='((A & mask) >> s) -> 0 only if mask < 2**s: %s' % u(c))
+        else:
+            R4.violation('mask-shift', 'rewrite:mask-shift:%s' % type(c.ops[0]).__name__, '((A & mask) >> shift) is rewritten to 0 under `%s`: for mask == 2**shift the bit A[shift] survives, '
+                         'so the condition must be strict' % u(c), where(hlp, c), witness='expr_simp((A & 0x80000000) >> 31) == 0')
+    # A <<< size(A) -> A
+    for n in ifs_where(lambda t: "op in ['<<<', '>>>']" in t and 'get_size()' in t):
+        if 'args[1].arg == args[0].get_size()' in u(n.test):
+            R4.ok('rot-by-size', sample='A <<< size(A) -> A')
+        else:
+            R4.violation('rot-by-size', 'rewrite:rot-by-size', 'rotation identity fires under %s, expected count == operand size' % u(n.test), where(hlp, n))
+    # (A | c) == 0 -> 0 needs c != 0
+    for n in ifs_where(lambda t: "op == '=='" in t and 'args[1].arg == 0' in t):
+        inner = [x for x in ast.walk(n) if isinstance(x, ast.If) and "args[0].op == '|'" in u(x.test)]
+        for x in inner:
+            if 'args[0].args[1].arg != 0' in u(x.test):
+                R4.ok('or-eq-zero', sample='(A | c) == 0 -> 0 only for c != 0')
+            else:
+                R4.violation('or-eq-zero', 'rewrite:or-eq-zero', '(A | c) == 0 is rewritten to 0 without requiring c != 0', where(hlp, x), witness='expr_simp((A | 0) == 0) == 0')
+    # int == int
+    for n in ifs_where(lambda t: "op == '=='" in t and 'isinstance(args[0], ExprInt)' in t and 'isinstance(args[1], ExprInt)' in t):
+        inner = [x for x in n.body if isinstance(x, ast.If)]
+        good = False
+        for x in inner:
+            if u(x.test).replace(' ', '') == 'args[0].arg==args[1].arg' and x.orelse:
+                t1, t0 = u(x.body[0]), u(x.orelse[0])
+                good = t1.endswith('(1))') and t0.endswith('(0))')
+        if good:
+            R4.ok('int-eq-int', sample='int == int -> 1 when equal else 0')
+        else:
+            R4.violation('int-eq-int', 'rewrite:int-eq-int', 'folding of int == int no longer yields 1 for equal operands and 0 otherwise', where(hlp, n))
+    # slice rules live in the ExprSlice branch
+    sl_ifs = [n for n in walk_no_nested(fn) if isinstance(n, ast.If) and u(n.test) == 'isinstance(e, ExprSlice)']
+    if not sl_ifs:
+        raise AnalysisError('simplifier: ExprSlice branch not found')
+    chain = []
+    node = sl_ifs[0].body[0] if sl_ifs[0].body and isinstance(sl_ifs[0].body[0], ast.If) else None
+    # the slice branch is an if/elif chain; first statement may be a comment-less If
+    for st in sl_ifs[0].body:
+        if isinstance(st, ast.If):
+            node = st
+            break
+    while node is not None:
+        chain.append(node)
+        node = node.orelse[0] if len(node.orelse) == 1 and isinstance(node.orelse[0], ast.If) else None
+    by = dict((u(n.test), n) for n in chain)
+    full = [t for t in by if 'e.start == 0' in t and 'e.stop == e.arg.get_size()' in t]
+    if full:
+        R4.ok('slice-full', sample='A[0:size(A)] -> A under start == 0 and stop == size')
+    else:
+        R4.violation('slice-full', 'rewrite:slice-full', 'the identity slice rule no longer requires start == 0 and stop == size(A): %s' % list(by)[:2], where(hlp, sl_ifs[0]))
+    for t, n in by.items():
+        if t == 'isinstance(e.arg, ExprSlice)':
+            news = [c for c in ast.walk(n) if isinstance(c, ast.Call) and u(c.func) == 'ExprSlice' and len(c.args) == 3]
+            if not news:
+                raise AnalysisError('slice-of-slice rewrite: new slice not found')
+            c = news[0]
+            st_, sp_ = _lin(c.args[1]), _lin(c.args[2])
+            want_st = {'e.start': 1, 'e.arg.start': 1}
+            want_sp = {'e.stop': 1, 'e.arg.start': 1}
+            if u(c.args[0]) == 'e.arg.arg' and st_ == want_st and sp_ == want_sp:
+                R4.ok('slice-of-slice', sample='A[a:b][c:d] -> A[a+c : a+d]')
+            else:
+                R4.violation('slice-of-slice', 'rewrite:slice-of-slice:%s:%s' % (_show(st_), _show(sp_)), 'A[a:b][c:d] is rewritten to %s[%s : %s]; expected A[a+c : a+d]'
+                             % (u(c.args[0]), _show(st_), _show(sp_)), where(hlp, c), witness='expr_simp(eax[8:32][8:16]) must be eax[16:24]')
+        if t == 'isinstance(e.arg, ExprCompose)':
+            tests = [x for x in ast.walk(n) if isinstance(x, ast.If) and 'a[1]' in u(x.test)]
+            good = False
+            for x in tests:
+                tt = u(x.test).replace(' ', '')
+                sub = [c for c in ast.walk(x) if isinstance(c, ast.Subscript) and u(c.value) == 'a[0]' and isinstance(c.slice, ast.Slice)]
+                if tt in ('a[1]<=e.startanda[2]>=e.stop',) and sub and _lin(sub[0].slice.lower) == {'e.start': 1, 'a[1]': -1} and _lin(sub[0].slice.upper) == {'e.stop': 1, 'a[1]': -1}:
+                    good = True
+            if good:
+                R4.ok('slice-of-compose', sample='Compose(..)[s:t] -> piece[s-p : t-p] when the piece [p:q) contains [s:t)')
+            else:
+                R4.violation('slice-of-compose', 'rewrite:slice-of-compose', 'slice of a concatenation is not re-based as piece[start-p : stop-p] under p <= start and q >= stop', where(hlp, n),
+                             witness='expr_simp(Compose(a@0:16, b@16:32)[16:24]) must be b[0:8]')
+        if t == 'isinstance(e.arg, ExprInt)':
+            txt = u(n).replace(' ', '')
+            if '(1<<e.stop-e.start)-1' in txt and '>>e.start' in txt:
+                R4.ok('slice-of-int', sample='int[s:t] -> (int >> s) & ((1 << (t-s)) - 1)')
+            else:
+                R4.violation('slice-of-int', 'rewrite:slice-of-int', 'slice of a constant is not (value >> start) & ((1 << (stop-start)) - 1)', where(hlp, n))
+        if 'isinstance(e.arg, ExprMem)' in t:
+            if 'e.start == 0' in t and 'e.arg.size > e.stop' in t and 'e.stop % 8 == 0' in t:
+                R4.ok('slice-of-mem', sample='@n[a][0:k] -> @k[a] only for start == 0, k < n, k a multiple of 8 (little endian)')
+            else:
+                R4.violation('slice-of-mem', 'rewrite:slice-of-mem', 'narrowing a memory read by a slice requires start == 0, stop < size and stop a multiple of 8; found %s' % t, where(hlp, n),
+                             witness='@32[a][8:16] is not @8[a]')
+    # conditional on a constant
+    cd = [n for n in walk_no_nested(fn) if isinstance(n, ast.If) and u(n.test) == 'isinstance(e.cond, ExprInt)']
+    for n in cd:
+        inner = [x for x in n.body if isinstance(x, ast.If)]
+        good = any(u(x.test).replace(' ', '') == 'e.cond.arg==0' and 'src2' in u(x.body[0]) and x.orelse and 'src1' in u(x.orelse[0]) for x in inner)
+        if good:
+            R4.ok('cond-const', sample='(c ? A : B) -> B when c == 0 else A')
+        else:
+            R4.violation('cond-const', 'rewrite:cond-const', 'a conditional on a constant no longer selects src2 for 0 and src1 otherwise', where(hlp, n))
+
 
 MUTANTS = [
+    ('mask-shift-nonstrict', 'miasmx/expression/expression_helper.py', "2**args[1].arg > args[0].args[1].arg", "2**args[1].arg >= args[0].args[1].arg", 'C05.D4'),
+    ('slice-slice-base', 'miasmx/expression/expression_helper.py', "new_e = ExprSlice(e.arg.arg, e.start + e.arg.start, e.start + e.arg.start + (e.stop - e.start))", "new_e = ExprSlice(e.arg.arg, e.start + e.arg.start, e.arg.start + (e.stop - e.start))", 'C05.D4'),
+    ('slice-compose-rebase', 'miasmx/expression/expression_helper.py', "new_e = a[0][e.start-a[1]:e.stop-a[1]]", "new_e = a[0][e.start:e.stop-a[1]]", 'C05.D4'),
+    ('cond-const-polarity', 'miasmx/expression/expression_helper.py', "            if e.cond.arg == 0:\n                e = e.src2\n            else:\n                e = e.src1", "            if e.cond.arg == 0:\n                e = e.src1\n            else:\n                e = e.src2", 'C05.D4'),
+    ('slice-mem-any-start', 'miasmx/expression/expression_helper.py', "isinstance(e.arg, ExprMem) and e.start == 0 and e.arg.size > e.stop", "isinstance(e.arg, ExprMem) and e.arg.size > e.stop", 'C05.D4'),
     ('merge-shift-own-width', 'miasmx/expression/expression_helper.py', '(int(out[0].arg) << (out[1] - start ))', '(int(out[0].arg) << (out[2] - out[1]))', 'C05.D3'),
     ('merge-no-adjacency', 'miasmx/expression/expression_helper.py', '                if sorted_s[-1][1][0].stop != out[0].start:\n                    break\n', '', 'C05.D3'),
     ('merge-mask-width', 'miasmx/expression/expression_helper.py', 'v = x[0].arg & ((1<<(x[2]-x[1]))-1)', 'v = x[0].arg & ((1<<(x[2]))-1)', 'C05.D3'),
